@@ -124,16 +124,45 @@ def run_scenario(task):
         for v in nodes:
             if u < v and scn["adj"][u - 1][v - 1]:
                 G.add_edge(u, v)
-    IC = {u: st0[u - 1] for u in nodes}
-    rs = list(scn["statuses"])
+    # the user's status labels: the specification's strings, or ints 0,1,2 (0 is falsy), or False/True/... objects
+    kind = task.get("labels", "str")
+    if kind == "ints":
+        fwd = {x: k for k, x in enumerate(scn["statuses"])}
+    elif kind == "falsy":
+        fwd = {x: [False, True, "", "x", 0.0][k] for k, x in enumerate(scn["statuses"])} if len(scn["statuses"]) <= 2 else {x: k for k, x in enumerate(scn["statuses"])}
+    else:
+        fwd = {x: x for x in scn["statuses"]}
+    back = {v: k for k, v in fwd.items()}
+    IC = {u: fwd[st0[u - 1]] for u in nodes}
+    rs_all = [fwd[x] for x in scn["statuses"]]
+    # return_statuses may be any subset of the statuses
+    rs = rs_all if not task.get("ret_subset") else [x for k, x in enumerate(rs_all) if k != (task["ret_subset"] - 1) % len(rs_all)]
     tmin = task.get("tmin", 0)
     tmax = tmin + horizon + 0.5
     log = []
-    rf, tc, gi = callbacks(scn, log, task.get("infl_kind", "set"))
+    rf0, tc0, gi0 = callbacks(scn, log, task.get("infl_kind", "set"))
+
+    class _View(dict):
+        """the simulator's status dict seen through the label map"""
+        def __init__(self, st):
+            self.st = st
+
+        def __getitem__(self, u):
+            return back[self.st[u]]
+
+    def rf(G_, node, status, parameters):
+        return rf0(G_, node, _View(status), parameters)
+
+    def tc(G_, node, status, parameters):
+        return fwd[tc0(G_, node, _View(status), parameters)]
+
+    def gi(G_, node, status, parameters):
+        return gi0(G_, node, _View(status), parameters)
 
     def fn_full():
         del log[:]
-        sim = EoN.Gillespie_complex_contagion(G, rf, tc, gi, dict(IC), rs, tmin=tmin, tmax=tmax, parameters=(), return_full_data=True)
+        # the histories are read with every status listed; the subset of return_statuses is exercised in array mode
+        sim = EoN.Gillespie_complex_contagion(G, rf, tc, gi, dict(IC), rs_all, tmin=tmin, tmax=tmax, parameters=(), return_full_data=True)
         return {"hist": {u: (list(sim.node_history(u)[0]), list(sim.node_history(u)[1])) for u in nodes}, "trans": None, "trans_err": None}
 
     def fn_arr():
@@ -145,14 +174,20 @@ def run_scenario(task):
 
     def parse(l):
         obs = l.result
-        ini = tuple(obs["hist"][u][1][0] for u in nodes)
+        try:
+            ini = tuple(back[obs["hist"][u][1][0]] for u in nodes)
+        except KeyError as ex:
+            return [], [{"kind": "unknown-status", "detail": "a history holds the status %r, which is not one of the user's labels" % (ex.args[0],)}]
         if ini != st0:
             return [], [{"kind": "initial-state", "detail": "histories start in %r, requested %r" % (ini, st0)}]
         ch = observe.changes(obs, nodes)
         times = [c[0] for c in ch]
         if times != [tmin + k + 1.0 for k in range(len(times))]:
             return [], [{"kind": "event-times", "detail": "event times %r under a unit-delay clock from tmin=%r" % (times, tmin)}]
-        return [(u, new) for (t, u, old, new) in ch], []
+        try:
+            return [(u, back[new]) for (t, u, old, new) in ch], []
+        except KeyError as ex:
+            return [], [{"kind": "unknown-status", "detail": "a history holds the status %r, which is not one of the user's labels" % (ex.args[0],)}]
 
     cls = scn["model"]
     res = walk.walk(fn_full, parse, st0, succ, RATE_UNIT, horizon, max_exp=horizon + 2, max_leaves=40000, cls=cls)
@@ -170,11 +205,13 @@ def run_scenario(task):
             problems.append({"kind": "draws-depend-on-return-mode", "cls": cls, "detail": "tapes differ", "script": l.script})
             continue
         st = list(st0)
-        rows = [[sum(1 for x in st if x == s) for s in statuses]]
+        asked = [back[x] for x in rs]                 # the statuses whose counts were requested, in that order
+        rows = [[sum(1 for x in st if x == s) for s in asked]]
         for (u, new) in r["events"]:
             st[u - 1] = new
-            rows.append([sum(1 for x in st if x == s) for s in statuses])
-        want = [[float(tmin + k) for k in range(len(rows))]] + [[float(row[j]) for row in rows] for j in range(len(statuses))]
+            rows.append([sum(1 for x in st if x == s) for s in asked])
+        want = [[float(tmin + k) for k in range(len(rows))]] + [[float(row[j]) for row in rows] for j in range(len(asked))]
         if la.result != want:
-            problems.append({"kind": "arrays", "cls": cls, "detail": "returned %r, statuses imply %r" % (la.result, want), "script": l.script})
+            problems.append({"kind": "arrays", "cls": cls + ("|return_statuses-subset" if len(rs) < len(rs_all) else ""),
+                             "detail": "returned %r, statuses imply %r (return_statuses=%r)" % (la.result, want, rs), "script": l.script})
     return {"problems": problems, "leaves": res["leaves"], "events": res["events"], "nodes": res["nodes"], "arr": narr}
